@@ -36,6 +36,12 @@ type PubSession struct {
 	listener    net.Listener
 	tcpConn     net.Conn
 	sessionStat base.BasicSessionStat
+
+	// connMu 保护tcpConn，accept协程和Dispose（可能来自其他协程，比如HTTP-API kick、定时器超时）会同时访问
+	connMu sync.Mutex
+	// feedMu 保证同一时刻只有一个协程往unpacker中喂数据（tcp模式下，新连接进来时，旧连接的读协程可能还没有退出）
+	// 注意，unpacker的回调中会获取上层的锁，所以Dispose中不能获取feedMu
+	feedMu sync.Mutex
 }
 
 func NewPubSession() *PubSession {
@@ -82,10 +88,17 @@ func (session *PubSession) Listen(port int, isTcpFlag bool) (int, error) {
 
 // RunLoop 阻塞函数
 func (session *PubSession) RunLoop() error {
+	var err error
 	if session.isTcpFlag {
-		return session.runLoopTcp()
+		err = session.runLoopTcp()
+	} else {
+		err = session.runLoopUdp()
 	}
-	return session.runLoopUdp()
+
+	session.feedMu.Lock()
+	session.unpacker.Dispose()
+	session.feedMu.Unlock()
+	return err
 }
 
 // ----- IServerSessionLifecycle ---------------------------------------------------------------------------------------
@@ -203,6 +216,7 @@ func (session *PubSession) runLoopTcp() error {
 			return err
 		}
 
+		session.connMu.Lock()
 		if session.tcpConn != nil {
 			nazalog.Warnf("[%s] tcp conn already exist, close the prev. err=%+v", session.UniqueKey(), err)
 			session.tcpConn.Close()
@@ -210,6 +224,7 @@ func (session *PubSession) runLoopTcp() error {
 		}
 
 		session.tcpConn = conn
+		session.connMu.Unlock()
 
 		go func() {
 			lb := make([]byte, 2)
@@ -238,7 +253,10 @@ func (session *PubSession) feedPacket(b []byte) {
 	}
 
 	session.sessionStat.AddReadBytes(len(b))
+
+	session.feedMu.Lock()
 	session.unpacker.FeedRtpPacket(b)
+	session.feedMu.Unlock()
 }
 
 func (session *PubSession) dispose(err error) error {
@@ -246,11 +264,18 @@ func (session *PubSession) dispose(err error) error {
 	session.disposeOnce.Do(func() {
 		Log.Infof("[%s] lifecycle dispose gb28181 PubSession. err=%+v", session.UniqueKey(), err)
 		if session.isTcpFlag {
-			if session.tcpConn == nil {
+			if session.listener == nil {
 				retErr = base.ErrSessionNotStarted
 				return
 			}
-			retErr = session.tcpConn.Close()
+			// 注意，不管是否已经有连接进来，都需要关闭listener，否则RunLoop不会退出，上层也就不会删除这个session
+			retErr = session.listener.Close()
+			session.connMu.Lock()
+			tcpConn := session.tcpConn
+			session.connMu.Unlock()
+			if tcpConn != nil {
+				retErr = tcpConn.Close()
+			}
 		} else {
 			if session.udpConn == nil {
 				retErr = base.ErrSessionNotStarted
@@ -258,8 +283,6 @@ func (session *PubSession) dispose(err error) error {
 			}
 			retErr = session.udpConn.Dispose()
 		}
-
-		session.unpacker.Dispose()
 	})
 	return retErr
 }
